@@ -18,7 +18,9 @@ from ..common import LEAN_DIR, REPO
 # and the proof file that states `generated = model`; a module that is not present yet is skipped
 EXTRA = [("vtrans", "VAT", "VATSpec"), ("dtrans", "Dual", "DualSpec"), ("ttrans", "Topo", "TopoSpec"), ("ttrans2", "TopoStep", "TopoStepSpec"), ("ftrans2", "FusionPredict", "FusionPredictSpec"),
          ("itrans", "ICVI", "ICVISpec"), ("ptrans", "Prep", "PrepSpec"), ("rtrans", "Falcon", "FalconSpec"),
-         ("atrans", "ARTMAP", "ARTMAPSpec"), ("htrans", "Deep", "DeepSpec"), ("btrans", "Bartmap", "BartmapSpec")]
+         ("atrans", "ARTMAP", "ARTMAPSpec"), ("htrans", "Deep", "DeepSpec"), ("btrans", "Bartmap", "BartmapSpec"),
+         ("k2trans", "Kernels2", "Kernels2Spec"), ("qtrans", "Params", "ParamsSpec"), ("gtrans", "Gate", "GateSpec"),
+         ("wtrans", "Whole", "WholeSpec"), ("ftrans3", "FusionFit", "FusionFitSpec")]
 
 
 def extra_translators():
